@@ -20,10 +20,12 @@ type c04CountingReader struct {
 	r         io.Reader
 	zeroDest  int
 	readCalls int
+	rooms     []string // len(p) of every Read(p), in order (op rooms)
 }
 
 func (c *c04CountingReader) Read(p []byte) (int, error) {
 	c.readCalls++
+	c.rooms = append(c.rooms, strconv.Itoa(len(p)))
 	if len(p) == 0 {
 		c.zeroDest++
 	}
@@ -75,6 +77,29 @@ func c04Run(f []string) (res string) {
 		return c04RunConc(f)
 	case "gz":
 		return c04RunGz(f)
+	case "rooms":
+		// the destination size of every Read the scanner issues: the allocation sizes (initial, regrow, refill) made
+		// observable; compared one by one with the model's `cap - end` / `cap - readOffset`
+		size, _ := strconv.Atoi(f[2])
+		data := append([]byte{}, UnHex(f[3])...)
+		rd := &scriptedReader{rest: data, script: parseScript(f[4])}
+		cr := &c04CountingReader{r: rd}
+		var sc readahead.Scanner
+		if f[1] == "imm" {
+			sc = readahead.NewImmediate(cr, size)
+		} else {
+			sc = readahead.NewBuffered(cr, size)
+		}
+		lines := 0
+		limit := len(data) + len(rd.script) + 3
+		for i := 0; i < limit && sc.Scan(); i++ {
+			lines++
+		}
+		rooms := "."
+		if len(cr.rooms) > 0 {
+			rooms = strings.Join(cr.rooms, ",")
+		}
+		return fmt.Sprintf("ok rooms=%s lines=%d", rooms, lines)
 	case "conccases":
 		// the case list for the race-detector run of extra/C04.py: `conccases <seed>`
 		seed, _ := strconv.ParseUint(f[1], 10, 64)
@@ -229,6 +254,17 @@ func c04Gen(r *Rand, tier string) []string {
 	out = append(out, c04GenBig(r, tier)...)
 	out = append(out, c04GenConc(r, tier)...)
 	out = append(out, c04GenGz(r, tier)...)
+	// op rooms: the Read destination sizes for a sample of the imm / buf cases above (same data, script, size)
+	{
+		every := 6
+		var rooms []string
+		for i, c := range out {
+			if i%every == 0 && (strings.HasPrefix(c, "imm ") || strings.HasPrefix(c, "buf ")) {
+				rooms = append(rooms, "rooms "+c)
+			}
+		}
+		out = append(out, rooms...)
+	}
 	if tier == "thorough" {
 		// exhaustive: all strings over {a,\n,\r} up to length 6 x buffer sizes 1..4 x one-byte reads / all-at-once
 		var rec func(cur []byte)
@@ -388,7 +424,7 @@ func c04Stats(cases []string) map[string]int {
 				st["script.fail"]++
 			}
 			continue
-		case "rl", "nocb", "scr":
+		case "rl", "nocb", "scr", "rooms":
 			f = f[1:]
 		case "sync":
 			f = []string{"sync", "131072", f[2], f[3]}
